@@ -67,7 +67,10 @@ KeepAlive == /\ depth < MaxDepth
              /\ op' = <<"keep", 0>> /\ depth' = depth + 1
              /\ UNCHANGED <<msLow, isInit, lastSync, backupWrites, backupVal, T, el, reading, lastRead>>
 
-\* setNow(v) -> syncNow(v), with a distinct backup clock
+\* setNow(v) -> syncNow(v), with a distinct backup clock.
+\* The class has three entry points that set the clock, all of them this one step: setNow(v) itself, setup() (v is what
+\* the backup clock reports) and forceSync() (v is what the reference clock reports); the conformance replay performs
+\* every SetNow edge of the state graph through each of the three (vf/clocks.py sc_replay_edges, setvia = T / U / F).
 SetNow(v) == /\ depth < MaxDepth
              /\ (ResyncStale \/ ~isInit \/ v # epoch)
              /\ op' = <<"set", v>> /\ depth' = depth + 1
